@@ -64,6 +64,7 @@ func (rs *restorer) GetCurrentCheckpoint() *Metadata {
 
 // Implements Restorer.
 func (rs *restorer) RestoreChunk(ctx context.Context, idx uint64, r io.Reader) (bool, error) {
+	var checkpoint *Metadata
 	chunk, err := func() (*ChunkMetadata, error) {
 		rs.Lock()
 		defer rs.Unlock()
@@ -77,6 +78,7 @@ func (rs *restorer) RestoreChunk(ctx context.Context, idx uint64, r io.Reader) (
 			return nil, ErrChunkAlreadyRestored
 		}
 
+		checkpoint = rs.currentCheckpoint
 		return rs.currentCheckpoint.GetChunkMetadata(idx)
 	}()
 	if err != nil {
@@ -97,6 +99,13 @@ func (rs *restorer) RestoreChunk(ctx context.Context, idx uint64, r io.Reader) (
 
 	rs.Lock()
 	defer rs.Unlock()
+
+	// The restore may have been aborted (or aborted and a new one started) while the chunk was
+	// being restored. In this case the chunk must not be accounted for, and in particular the
+	// restore must not be reported as done.
+	if rs.currentCheckpoint != checkpoint {
+		return false, ErrNoRestoreInProgress
+	}
 
 	// Mark the given chunk as restored.
 	delete(rs.pendingChunks, idx)
